@@ -197,16 +197,17 @@ def run_case(ctx, n):
         # quick: rotate the prompt subset with the seed so that all prompts are eventually covered
         prompt = PROMPTS[(pi + ctx.seed * nprompts) % len(PROMPTS)]
         logic, e, a = TABLE[ti]
-        cache = (n % 2 == 0)
-        name = "Gene_Y (Risk)" if n % 3 else "assessor-%d" % n
+        rsel = ctx.rng("table", n)      # side choices are drawn, not derived from n modulo something (no aliasing with the sweep index)
+        cache = rsel.random() < 0.5
+        name = "Gene_Y (Risk)" if rsel.random() < 0.6 else "assessor-%d" % n
         loop = make_loop(logic, cache, assessor_name=name)
         loop.executor.verdict, loop.assessor.verdict = e, a
-        loop.executor.exc_index, loop.assessor.exc_index = n, n // 7
-        prov = [None, None, "Gene_Z (Exec)", "upstream-policy-bot", "User", ""][n % 6]
+        loop.executor.exc_index, loop.assessor.exc_index = rsel.randrange(1000), rsel.randrange(1000)
+        prov = rsel.choice([None, None, "Gene_Z (Exec)", "upstream-policy-bot", "User", ""])
         loop.assessor.provenance = prov
-        loop.executor.provenance = [None, "Gene_Y (Risk)", "relay"][n % 3]
+        loop.executor.provenance = rsel.choice([None, "Gene_Y (Risk)", "relay"])
         w = {"logic": logic, "executor": e, "assessor": a, "prompt": prompt, "cache": cache, "assessor_source_agent": prov,
-             "exception_class": exception_classes()[(n if e == "raise" else n // 7) % len(exception_classes())].__name__ if "raise" in (e, a) else None}
+             "exception_class": exception_classes()[(loop.executor.exc_index if e == "raise" else loop.assessor.exc_index) % len(exception_classes())].__name__ if "raise" in (e, a) else None}
         ctx.count("table_cells")
         if prov:
             ctx.count("verdicts_with_foreign_provenance")
@@ -239,7 +240,7 @@ def run_case(ctx, n):
     ext = extra_table()
     if n2 < len(ext):
         logic, e, a = ext[n2]
-        loop = make_loop(logic, n2 % 2 == 0)
+        loop = make_loop(logic, ctx.rng("ext", n).random() < 0.5)
         loop.executor.verdict, loop.assessor.verdict = e, a
         w = {"logic": logic, "executor": e, "assessor": a, "prompt": "p", "note": "unknown-verdict sweep"}
         ctx.count("unknown_verdict_cells")
@@ -258,9 +259,9 @@ def run_case(ctx, n):
         who, oi = divmod(r, 3)
         other = ["EXECUTE", "PERMIT", "BLOCK"][oi]
         logic = LOGICS[li]
-        loop = make_loop(logic, n3 % 2 == 0)
+        loop = make_loop(logic, ctx.rng("exc", n).random() < 0.5)
         L = len(exception_classes())
-        loop.executor.exc_index = loop.assessor.exc_index = ci + L * (n3 % 3)    # class ci, with and without a message
+        loop.executor.exc_index = loop.assessor.exc_index = ci + L * ctx.rng("excmsg", n).randrange(3)    # class ci, with and without a message
         e, a = ("raise", other) if who == 0 else (other, "raise")
         loop.executor.verdict, loop.assessor.verdict = e, a
         w = {"logic": logic, "executor": e, "assessor": a, "exception_class": exception_classes()[ci].__name__, "prompt": "p"}
